@@ -185,6 +185,9 @@ def run_graph(case):
                 skipped.append(f"{opn}: data class raised {type(exc).__name__}")
                 continue
             alphabet.append((opn, opn))
+    # the very data object the model was fitted on is also a legitimate argument of predict()
+    data_objs["predict:baseline_object:usage"] = bdata
+    alphabet.append(("predict:baseline_object:usage", "predict:baseline_object:usage"))
     alphabet.append(("fit_other_meter", "fit_other"))
     other_frame = baseline_frame(family, 365, seed=5)
 
